@@ -35,8 +35,8 @@ structure Variant where
   modC : String
   cfg : Cfg
 
-def mkCfg (period : Nat) (n1 junkB : Bool) (junk : Rat) (rt : Option Rat) : Cfg :=
-  { period := period, n1Clear := n1, ctorJunk := junkB, junk := fun _ _ => junk, rewTol := rt }
+def mkCfg (period : Nat) (n1 junkB : Bool) (junk : Rat) (rt : Option Rat) (sg : Bool := false) : Cfg :=
+  { period := period, n1Clear := n1, ctorJunk := junkB, junk := fun _ _ => junk, rewTol := rt, sparseGeneric := sg }
 
 def variantOf (name : String) (junk : Rat) : Option Variant :=
   let pd := AITB.Gen.resyncPeriodDense
@@ -47,6 +47,7 @@ def variantOf (name : String) (junk : Rat) : Option Variant :=
   | "dsparse" => some ⟨"MDP::SparseExperience", "MaximumLikelihoodModel", mkCfg pd AITB.Gen.C07.denseN1Clear AITB.Gen.C07.denseCtorJunk junk none⟩
   | "generic" => some ⟨"GenericExperience", "MaximumLikelihoodModel", mkCfg pd AITB.Gen.C07.denseN1Clear AITB.Gen.C07.denseCtorJunk junk none⟩
   | "sparse"  => some ⟨"MDP::SparseExperience", "SparseMaximumLikelihoodModel", mkCfg ps AITB.Gen.C07.sparseN1Clear false junk st⟩
+  | "gsparse" => some ⟨"GenericExperience", "SparseMaximumLikelihoodModel<generic>", mkCfg ps AITB.Gen.C07.sparseN1Clear false junk st AITB.Gen.C07.sparseGenericPartial⟩
   | "bandit"  => some ⟨"Bandit::Experience", "none", mkCfg pd true false junk none⟩
   | "fbandit" => some ⟨"Factored::Bandit::Experience", "none", mkCfg pd true false junk none⟩
   | "coop"    => some ⟨"CooperativeExperience", "CooperativeMaximumLikelihoodModel", mkCfg pd true false junk none⟩
@@ -136,6 +137,9 @@ def checkMod (st : St) (site : String) (i : Nat) (o : ModObs) (last : Bool) : Ve
   else if heavy g.snap.length st.opIdx last then
     let bad := (List.range st.w).any (fun k => !(xClose (o.row.getD k .nan) (freqOf g.snap k)))
     let kind := if st.everReset && g.snap.length == 1 && site == "syncInc" then "row_not_frequency_first_record_after_reset" else "row_not_frequency"
+    -- where the implementation is wrong only on cells the data never visited (value left over from before)
+    let onlyUnvisited := (List.range st.w).all (fun k => xClose (o.row.getD k .nan) (freqOf g.snap k) || countS1 k g.snap == 0)
+    let kind := if kind == "row_not_frequency" && onlyUnvisited && site != "syncInc" then "row_keeps_stale_unvisited_cells" else kind
     let v := v.failIf bad s!"{comp} {kind} pair={i} impl={o.row.map showX} want={(List.range st.w).map (fun k => ratStr (freqOf g.snap k))}"
     let m := meanOf g.snap
     if xClose o.rew m then v
